@@ -50,6 +50,9 @@ Step(s, e, i) ==
   CASE e.ev = "reset" -> [tr |-> e.t, at |-> i]
     [] e.ev = "dvec" -> OnVec(s0, e)
     [] e.ev = "dmal" -> OnMal(s0, e)
+    \* a descriptor announcing more bytes than its loop has left: refused, or the parse ends where the loop length says (nothing after the loop moves)
+    [] e.ev = "dover" -> IF e.gerr = "panic" THEN Rep(s0, V("panic", s0, e, [mid |-> e.mid]))
+                         ELSE RepIf(e.gerr = "nil" /\ e.goff # e.loopend, s0, V("descriptor-runs-past-its-loop", s0, e, [mid |-> e.mid, goff |-> e.goff, loopend |-> e.loopend]))
     [] OTHER -> s
 
 Next == /\ l <= Len(Trace)
